@@ -1,0 +1,21 @@
+//go:build verif
+
+package bondgo
+
+import (
+	"os"
+	"strconv"
+	"time"
+)
+
+// verifYieldBondgo is called by the variable allocator right before it notifies the usage
+// monitor. In builds with the "verif" tag it sleeps for VERIF_BONDGO_DELAY_MS milliseconds
+// (when set), which lets a verification harness force the interleaving in which main reaches its
+// shutdown sequence while a notification is still pending.
+func verifYieldBondgo(point string) {
+	if v := os.Getenv("VERIF_BONDGO_DELAY_MS"); v != "" {
+		if ms, err := strconv.Atoi(v); err == nil && ms > 0 {
+			time.Sleep(time.Duration(ms) * time.Millisecond)
+		}
+	}
+}
